@@ -1,4 +1,5 @@
 import Arimaa.Lemmas.Enabled
+import Arimaa.Lemmas.GenAgreeResult
 
 /-!
 Helper lemmas for C04: the goal-rank and elimination tests of `rabbit_at_goal` / `lost_all_rabbits`
